@@ -134,7 +134,7 @@ func (c *connection) write() {
 	for {
 		select {
 		case <-c.stopChan:
-			clear(record)
+			c.failPending(record)
 			return
 		case activeMsg, ok := <-c.activeMsgChan: // 平台主动下发的
 			if ok {
@@ -175,14 +175,28 @@ func (c *connection) stop() {
 	c.stopOnce.Do(func() {
 		c.leaveFunc(c.key)
 		c.terminalEvent.OnLeaveEvent(c.key)
+		// 只关闭stopChan 其他channel可能还有发送方(会话管理 超时协程) 关闭了会panic 让gc回收
 		close(c.stopChan)
 		_ = c.conn.Close()
 		clear(c.handles)
-		close(c.msgChan)
-		close(c.activeMsgChan)
-		close(c.activeMsgCompleteChan)
-		close(c.reissuePackChan)
 	})
+}
+
+// failPending 连接结束时 还在等待应答的和还没有下发的主动请求 全部以失败返回 避免调用方一直阻塞
+// leaveFunc在关闭stopChan之前已经完成 所以此时不会再有新的主动请求进入activeMsgChan
+func (c *connection) failPending(record map[uint16]*ActiveMessage) {
+	for seq, v := range record {
+		v.replyChan <- newErrMessage(errors.Join(ErrWriteDataFail, net.ErrClosed))
+		delete(record, seq)
+	}
+	for {
+		select {
+		case activeMsg := <-c.activeMsgChan:
+			activeMsg.replyChan <- newErrMessage(errors.Join(ErrWriteDataFail, net.ErrClosed))
+		default:
+			return
+		}
+	}
 }
 
 func (c *connection) defaultReplyEvent(msg *Message) {
@@ -259,14 +273,12 @@ func (c *connection) onActiveEvent(activeMsg *ActiveMessage, record map[uint16]*
 		}
 		go func(overtimeMsg *Message) {
 			time.Sleep(duration)
-			select {
-			case <-c.stopChan:
-				return
-			default:
-			}
 			overtimeMsg.ExtensionFields.Err = errors.Join(ErrWriteDataOverTime,
 				fmt.Errorf("overtime is [%.2f]second", duration.Seconds()))
-			c.activeMsgCompleteChan <- overtimeMsg
+			select {
+			case <-c.stopChan: // 连接已经结束 由failPending通知调用方
+			case c.activeMsgCompleteChan <- overtimeMsg:
+			}
 		}(replyMsg)
 	}
 }
